@@ -5,6 +5,9 @@ pub mod c02;
 pub mod c03;
 pub mod c04;
 pub mod c05;
+pub mod c06;
+pub mod c07;
+pub mod c08;
 pub mod c09;
 pub mod c10;
 pub mod c15;
@@ -12,15 +15,18 @@ pub mod c18;
 pub mod files;
 pub mod hist;
 pub mod query;
+pub mod sorter_common;
 
 pub fn run(ctx: &Ctx, part: &str) -> i32 {
-    let _ = part;
     match ctx.id.as_str() {
         "C01" => c01::run(ctx),
         "C02" => c02::run(ctx),
         "C03" => c03::run(ctx),
         "C04" => c04::run(ctx),
         "C05" => c05::run(ctx),
+        "C06" => c06::run(ctx),
+        "C07" => c07::run(ctx, part),
+        "C08" => c08::run(ctx),
         "C09" => c09::run(ctx),
         "C10" => c10::run(ctx),
         "C15" => c15::run(ctx),
